@@ -740,6 +740,15 @@ pub fn run(sc: &Value) -> Vec<String> {
         let back = guard(|| OrderQueue::from_str(&t).ok().map(|y| qv(&y))).flatten();
         cline(&mut out, &mut encs, "queue", qv(&q), Some((t, back)), None, Value::Null);
     }
+    // a level whose displayed quantities sum past 2^64: its aggregates have wrapped, and a round trip must give back
+    // exactly those figures (a rebuild that sums differently - saturating instead of wrapping - does not)
+    {
+        let l = PriceLevel::new(7);
+        l.add_order(OrderType::Standard { id: OrderId::from_u64(1), price: 7, quantity: M, side: Side::Buy, timestamp: 1, time_in_force: TimeInForce::Gtc, extra_fields: () });
+        l.add_order(OrderType::IcebergOrder { id: OrderId::from_u64(2), price: 7, visible_quantity: 2, hidden_quantity: M, side: Side::Sell, timestamp: 2, time_in_force: TimeInForce::Gtc, extra_fields: () });
+        l.add_order(OrderType::IcebergOrder { id: OrderId::from_u64(3), price: 7, visible_quantity: 0, hidden_quantity: 5, side: Side::Sell, timestamp: 3, time_in_force: TimeInForce::Day, extra_fields: () });
+        cline(&mut out, &mut encs, "level", level_v(&l), Some(rt_text(&l, level_v)), Some(rt_json(&l, level_v)), Value::Null);
+    }
     // ---- C18: every parser on character-level faults of every encoding ------------------------
     let stride = sc["stride"].as_u64().unwrap_or(1) as usize;
     let per_type = sc["fault_sources"].as_u64().unwrap_or(6) as usize;
